@@ -14,15 +14,14 @@ import NLE.Model.Trace
   * An `Update` is either a *heartbeat* — only by a claiming instance, presenting the revision field
     and republishing the token of its term — or a *takeover* — only with takeover enabled and
     priority > 0, against the revision of a record this instance has read, whose stored priority is
-    strictly lower, publishing the token of a Create of this instance that was refused.
+    strictly lower, publishing a fresh token (as `Create` does).
   * The revision field of a claiming instance is written only by `becomeLeader(tok, rev)` with the
     revision returned by its own acquiring write and by the heartbeat loop with the revision
     returned by its own refresh (follower-side observations are dropped while leading:
     `observeLeader`).
   * The flag is raised only by `becomeLeader`, i.e. after an own acknowledged acquiring write, with
     that write's token.
-  * `Delete` is issued only by `StopWithContext{DeleteKey}` of an instance that led when the stop
-    began or acquired the record while stopping.
+  * `Delete` is issued only by `StopWithContext{DeleteKey}`.
 
   The state carries ghost history (every successful mutation with the record before/after it) so
   that the properties are statements about monotone history.
@@ -67,32 +66,32 @@ structure Inst where
   lead : Option Nat := none            -- token of the term in progress (the flag)
   hbRev : Nat := 0                     -- the revision field while leading
   seen : List (Nat × Val) := []        -- records this instance has read (revision, value)
-  refusedToks : List Nat := []         -- tokens of its Creates that were refused
   acked : List (Nat × Nat) := []       -- (token, revision) of its acknowledged acquiring writes not yet claimed
   stopDel : Option Nat := none         -- the StopWithContext{DeleteKey} call in progress (api number)
   deriving Repr, Inhabited
 
 structure State where
-  insts : List Inst := []
-  store : List (String × Rec) := []
+  insts : Nat → Option Inst := fun _ => none
+  store : String → Option Rec := fun _ => none
   seq : Nat := 0
   ops : List POp := []
   hist : List Mut := []                -- newest first
   usedToks : List Nat := []            -- every token ever issued by a Create call or written into a record
-  deriving Repr, Inhabited
+  deriving Inhabited
 
 namespace State
 
-def inst? (s : State) (i : Nat) : Option Inst := s.insts.find? (·.cfg.id = i)
 def setInst (s : State) (x : Inst) : State :=
-  { s with insts := s.insts.map fun y => if y.cfg.id = x.cfg.id then x else y }
-def live (s : State) (key : String) : Option Rec := s.store.lookup key
+  { s with insts := fun i => if i = x.cfg.id then some x else s.insts i }
 def setKey (s : State) (key : String) (r : Option Rec) : State :=
-  let rest := s.store.filter (·.1 ≠ key)
-  match r with
-  | none => { s with store := rest }
-  | some r => { s with store := (key, r) :: rest }
+  { s with store := fun k => if k = key then r else s.store k }
 def op? (s : State) (id : Nat) : Option POp := s.ops.find? (·.id = id)
+def markOp (s : State) (op : Nat) (r : Option Nat) : State :=
+  { s with ops := s.ops.map fun q => if q.id = op then { q with applied := some r } else q }
+def dropOp (s : State) (op : Nat) : State :=
+  { s with ops := s.ops.filter (·.id ≠ op) }
+def addOp (s : State) (p : POp) : State := { s with ops := p :: s.ops }
+def addMut (s : State) (m : Mut) : State := { s with hist := m :: s.hist }
 
 end State
 
@@ -106,157 +105,195 @@ def valToks : Val → List Nat
   | .empty => []
 
 def storedPrio (v : Val) : Option Int :=
-  let (ok, _, _, p) := v.structView
-  if ok then some p else none
+  if v.structView.1 then some v.structView.2.2.2 else none
+
+/-- `cfg.Priority > stored priority` as the takeover comparison reads the record. -/
+def outranks (prio : Int) (v : Val) : Bool :=
+  match storedPrio v with
+  | some p => decide (prio > p)
+  | none => false
 
 /-- Guard of a takeover `Update`: this instance may replace a record it has read at revision `exp`. -/
 def takeoverAllowed (x : Inst) (exp : Nat) : Bool :=
-  x.cfg.takeover && decide (x.cfg.prio > 0) &&
-  x.seen.any fun (r, v) => r == exp && (match storedPrio v with | some p => decide (x.cfg.prio > p) | none => false)
+  x.cfg.takeover && decide (x.cfg.prio > 0) && x.seen.any fun rv => rv.1 == exp && outranks x.cfg.prio rv.2
+
+/-- Heartbeat operation time-out: max(H/2, 1 s) (the documented rule). -/
+def hbTimeout (c : InstCfg) : Nat := max (c.hb / 2) 1000000000
 
 abbrev R := Except String
 
 def reject {α} (msg : String) : R α := .error msg
 
-/-- Heartbeat operation time-out: max(H/2, 1 s) (the documented rule; the constants are tied to the source by
-    `NLE/Theorems/C03.lean`). -/
-def hbTimeout (c : InstCfg) : Nat := max (c.hb / 2) 1000000000
+/-! ### Event handlers -/
+
+def stepCall (s : State) (t op i : Nat) (kind : OpKind) (key : String) (exp : Nat) (val : Val) : R State :=
+  match s.insts i with
+  | none => reject s!"call by unknown instance {i}"
+  | some x =>
+    if (s.op? op).isSome then reject s!"operation id {op} used twice" else
+    if key ≠ x.cfg.key then reject s!"instance {i} touches key {key}, its group's key is {x.cfg.key}" else
+    match kind with
+    | .create =>
+      match val with
+      | .own id tok prio =>
+        if id ≠ i ∨ prio ≠ x.cfg.prio ∨ i ≠ x.cfg.id then reject s!"Create by {i} publishes identity {id} priority {prio}"
+        else if tok = 0 ∨ s.usedToks.contains tok then reject s!"Create by {i} reuses token {tok}"
+        else pure { (s.addOp { id := op, inst := i, purpose := .create, key := key, exp := 0, val := val, issued := t }) with
+                    usedToks := tok :: s.usedToks }
+      | _ => reject s!"Create by {i} with a non-canonical payload"
+    | .update =>
+      match val with
+      | .own id tok prio =>
+        if id ≠ i ∨ prio ≠ x.cfg.prio ∨ i ≠ x.cfg.id then reject s!"Update by {i} publishes identity {id} priority {prio}"
+        else if x.lead = some tok then
+          -- heartbeat: presents the revision field
+          if exp = x.hbRev then
+            pure (s.addOp { id := op, inst := i, purpose := .heartbeat, key := key, exp := exp, val := val, issued := t })
+          else reject s!"heartbeat of {i} presents revision {exp}, its revision field holds {x.hbRev}"
+        else if tok ≠ 0 ∧ s.usedToks.contains tok = false ∧ takeoverAllowed x exp = true then
+          pure { (s.addOp { id := op, inst := i, purpose := .takeover, key := key, exp := exp, val := val, issued := t }) with
+                 usedToks := tok :: s.usedToks }
+        else reject s!"Update by {i} (exp {exp}, token {tok}) is neither its heartbeat (term {repr x.lead}) nor an allowed takeover"
+      | _ => reject s!"Update by {i} with a non-canonical payload"
+    | .delete =>
+      if x.stopDel.isSome then
+        pure (s.addOp { id := op, inst := i, purpose := .delete, key := key, exp := 0, val := .empty, issued := t })
+      else reject s!"Delete by {i} outside StopWithContext(DeleteKey)"
+    | _ => pure (s.addOp { id := op, inst := i, purpose := .other, key := key, exp := 0, val := .empty, issued := t })
+
+/-- The store applies a write of instance `p.inst` (ghost history and token bookkeeping included). -/
+def applyWrite (s : State) (op : Nat) (p : POp) (rev : Nat) (kind : MKind) (before : Option Rec) : State :=
+  let r : Rec := { val := p.val, rev := rev, writer := p.inst }
+  ({ ((s.setKey p.key (some r)).addMut { who := p.inst, kind := kind, key := p.key, exp := p.exp, before := before, after := some r }) with
+     seq := rev, usedToks := valToks p.val ++ s.usedToks }).markOp op (some rev)
+
+def stepApplyOk (s : State) (op : Nat) (p : POp) (rev : Nat) : R State :=
+  match p.purpose with
+  | .other => pure (s.markOp op (some rev))
+  | .create =>
+    if (s.store p.key).isSome then reject s!"store applied a Create on a live key"
+    else if rev ≠ s.seq + 1 then reject s!"store revision {rev}, model expects {s.seq + 1}"
+    else pure (applyWrite s op p rev .create none)
+  | .heartbeat =>
+    match s.store p.key with
+    | none => reject s!"store applied an Update on an absent key"
+    | some old =>
+      if old.rev ≠ p.exp then reject s!"store applied an Update against revision {p.exp}, live revision is {old.rev}"
+      else if rev ≠ s.seq + 1 then reject s!"store revision {rev}, model expects {s.seq + 1}"
+      else pure (applyWrite s op p rev .refresh (some old))
+  | .takeover =>
+    match s.store p.key with
+    | none => reject s!"store applied an Update on an absent key"
+    | some old =>
+      if old.rev ≠ p.exp then reject s!"store applied an Update against revision {p.exp}, live revision is {old.rev}"
+      else if rev ≠ s.seq + 1 then reject s!"store revision {rev}, model expects {s.seq + 1}"
+      else pure (applyWrite s op p rev .takeover (some old))
+  | .delete =>
+    if rev ≠ s.seq + 1 then reject s!"store revision {rev}, model expects {s.seq + 1}"
+    else
+      pure ({ ((s.setKey p.key none).addMut { who := p.inst, kind := .delete, key := p.key, exp := 0, before := s.store p.key, after := none }) with
+              seq := rev }.markOp op (some rev))
+
+def stepApply (s : State) (op : Nat) (a : Applied) : R State :=
+  match s.op? op with
+  | none => reject s!"apply of unknown op {op}"
+  | some p =>
+    if p.applied.isSome then reject s!"operation {op} applied twice" else
+    match a with
+    | .ok rev => stepApplyOk s op p rev
+    | _ => pure (s.markOp op none)
+
+def stepRet (s : State) (t op : Nat) (r : Ret) : R State :=
+  match s.op? op with
+  | none => reject s!"ret of unknown op {op}"
+  | some p =>
+    let s1 := s.dropOp op
+    match s1.insts p.inst with
+    | none => pure s1
+    | some x =>
+      match p.purpose, r with
+      | .create, .ok rev _ =>
+        if p.applied ≠ some (some rev) then reject s!"op {op} acknowledged at {rev} but applied {repr p.applied}"
+        else match valTok p.val with
+          | some tok => pure (s1.setInst { x with acked := (tok, rev) :: x.acked })
+          | none => pure s1
+      | .takeover, .ok rev _ =>
+        if p.applied ≠ some (some rev) then reject s!"op {op} acknowledged at {rev} but applied {repr p.applied}"
+        else match valTok p.val with
+          | some tok => pure (s1.setInst { x with acked := (tok, rev) :: x.acked })
+          | none => pure s1
+      | .heartbeat, .ok rev _ =>
+        if p.applied ≠ some (some rev) then reject s!"op {op} acknowledged at {rev} but applied {repr p.applied}"
+        else if x.lead = valTok p.val ∧ t ≤ p.issued + hbTimeout x.cfg then pure (s1.setInst { x with hbRev := rev })
+        else pure s1          -- the term has ended or the attempt had already timed out: the answer is discarded
+      | .other, .ok rev (some v) =>
+        -- what a read returns must be a version of this key that was written at some point
+        if p.key = x.cfg.key ∧ s.hist.any (fun m => m.key == p.key && (match m.after with | some r => r.rev == rev && r.val == v | none => false)) then
+          pure (s1.setInst { x with seen := (rev, v) :: x.seen })
+        else reject s!"op {op} returned revision {rev} of {p.key}, which was never written"
+      | _, _ => pure s1
+
+def stepExpire (s : State) (key : String) (rev : Nat) : R State :=
+  match s.store key with
+  | some old =>
+    if old.rev = rev then
+      pure ((s.setKey key none).addMut { who := 0, kind := .expire, key := key, exp := 0, before := some old, after := none })
+    else reject s!"expiry of {key} at revision {rev}, live revision is {old.rev}"
+  | none => reject s!"expiry of absent key {key}"
+
+/-- Tokens that instances have generated for an acquiring write that has not been applied: nobody
+    else can know them (assumption A-uuid). -/
+def unpublishedToks (s : State) : List Nat :=
+  s.ops.filterMap fun p =>
+    if (p.purpose = .create ∨ p.purpose = .takeover) ∧ (p.applied = none ∨ p.applied = some none) then valTok p.val else none
+
+def stepExtPut (s : State) (key : String) (rev : Nat) (val : Val) : R State :=
+  if rev ≠ s.seq + 1 then reject s!"store revision {rev}, model expects {s.seq + 1}"
+  else if (valToks val).any (fun t => (unpublishedToks s).contains t) then
+    reject s!"outside writer publishes a token that an instance generated but has not published (excluded by A-uuid)"
+  else
+    let r : Rec := { val := val, rev := rev, writer := 0 }
+    pure { ((s.setKey key (some r)).addMut { who := 0, kind := .ext, key := key, exp := 0, before := s.store key, after := some r }) with
+           seq := rev, usedToks := valToks val ++ s.usedToks }
+
+def stepExtDelete (s : State) (key : String) (rev : Nat) : R State :=
+  if rev ≠ s.seq + 1 then reject s!"store revision {rev}, model expects {s.seq + 1}"
+  else
+    pure { ((s.setKey key none).addMut { who := 0, kind := .ext, key := key, exp := 0, before := s.store key, after := none }) with seq := rev }
+
+def stepFlag (s : State) (i : Nat) (il : Bool) (tok : Nat) : R State :=
+  match s.insts i with
+  | none => pure s
+  | some x =>
+    if il then
+      if x.lead = some tok then pure s                     -- gauge re-asserted
+      else match x.acked.find? (·.1 = tok) with
+        | some (_, rev) =>
+          if x.lead.isSome then reject s!"instance {i} starts a term (token {tok}) while term {repr x.lead} is open"
+          else pure (s.setInst { x with lead := some tok, hbRev := rev, acked := x.acked.filter (·.1 ≠ tok) })
+        | none => reject s!"instance {i} raises the flag with token {tok} without an acknowledged acquiring write"
+    else pure (s.setInst { x with lead := none })
 
 /-- One visible event.  Events that do not concern this model are accepted unchanged. -/
 def step (s : State) (te : TEv) : R State :=
-  let t := te.t
   match te.ev with
-  | .inst c => pure { s with insts := s.insts ++ [{ cfg := c }] }
-  | .call op i kind key exp val =>
-    match s.inst? i with
-    | none => reject s!"call by unknown instance {i}"
-    | some x =>
-      if key ≠ x.cfg.key then reject s!"instance {i} touches key {key}, its group's key is {x.cfg.key}" else
-      match kind with
-      | .create =>
-        match val with
-        | .own id tok prio =>
-          if id ≠ i ∨ prio ≠ x.cfg.prio then reject s!"Create by {i} publishes identity {id} priority {prio}"
-          else if tok = 0 ∨ s.usedToks.contains tok then reject s!"Create by {i} reuses token {tok}"
-          else pure { s with ops := { id := op, inst := i, purpose := .create, key := key, exp := 0, val := val, issued := t } :: s.ops,
-                             usedToks := tok :: s.usedToks }
-        | _ => reject s!"Create by {i} with a non-canonical payload"
-      | .update =>
-        match val with
-        | .own id tok prio =>
-          if id ≠ i ∨ prio ≠ x.cfg.prio then reject s!"Update by {i} publishes identity {id} priority {prio}"
-          else if x.lead = some tok then
-            -- heartbeat: presents the revision field
-            if exp = x.hbRev then
-              pure { s with ops := { id := op, inst := i, purpose := .heartbeat, key := key, exp := exp, val := val, issued := t } :: s.ops }
-            else reject s!"heartbeat of {i} presents revision {exp}, its revision field holds {x.hbRev}"
-          else if x.refusedToks.contains tok ∧ takeoverAllowed x exp then
-            pure { s with ops := { id := op, inst := i, purpose := .takeover, key := key, exp := exp, val := val, issued := t } :: s.ops }
-          else reject s!"Update by {i} (exp {exp}, token {tok}) is neither its heartbeat (term {repr x.lead}) nor an allowed takeover"
-        | _ => reject s!"Update by {i} with a non-canonical payload"
-      | .delete =>
-        if x.stopDel.isSome then
-          pure { s with ops := { id := op, inst := i, purpose := .delete, key := key, exp := 0, val := .empty, issued := t } :: s.ops }
-        else reject s!"Delete by {i} outside StopWithContext(DeleteKey)"
-      | _ => pure { s with ops := { id := op, inst := i, purpose := .other, key := key, exp := 0, val := .empty, issued := t } :: s.ops }
-  | .apply op a =>
-    match s.op? op with
-    | none => reject s!"apply of unknown op {op}"
-    | some p =>
-      let mark (s : State) (r : Option Nat) : State :=
-        { s with ops := s.ops.map fun q => if q.id = op then { q with applied := some r } else q }
-      match a with
-      | .ok rev =>
-        match p.purpose with
-        | .other => pure (mark s (some rev))
-        | .create =>
-          if (s.live p.key).isSome then reject s!"store applied a Create on a live key"
-          else if rev ≠ s.seq + 1 then reject s!"store revision {rev}, model expects {s.seq + 1}"
-          else
-            let r : Rec := { val := p.val, rev := rev, writer := p.inst }
-            let s := (s.setKey p.key (some r))
-            pure (mark { s with seq := rev, hist := { who := p.inst, kind := .create, key := p.key, exp := 0, before := none, after := some r } :: s.hist,
-                                usedToks := valToks p.val ++ s.usedToks } (some rev))
-        | .heartbeat | .takeover =>
-          match s.live p.key with
-          | none => reject s!"store applied an Update on an absent key"
-          | some old =>
-            if old.rev ≠ p.exp then reject s!"store applied an Update against revision {p.exp}, live revision is {old.rev}"
-            else if rev ≠ s.seq + 1 then reject s!"store revision {rev}, model expects {s.seq + 1}"
-            else
-              let r : Rec := { val := p.val, rev := rev, writer := p.inst }
-              let k : MKind := if p.purpose = .heartbeat then .refresh else .takeover
-              let s := (s.setKey p.key (some r))
-              pure (mark { s with seq := rev, hist := { who := p.inst, kind := k, key := p.key, exp := p.exp, before := some old, after := some r } :: s.hist,
-                                  usedToks := valToks p.val ++ s.usedToks } (some rev))
-        | .delete =>
-          if rev ≠ s.seq + 1 then reject s!"store revision {rev}, model expects {s.seq + 1}"
-          else
-            let old := s.live p.key
-            let s := s.setKey p.key none
-            pure (mark { s with seq := rev, hist := { who := p.inst, kind := .delete, key := p.key, exp := 0, before := old, after := none } :: s.hist } (some rev))
-      | _ => pure (mark s none)
-  | .ret op r =>
-    match s.op? op with
-    | none => reject s!"ret of unknown op {op}"
-    | some p =>
-      let s1 := { s with ops := s.ops.filter (·.id ≠ op) }
-      match s1.inst? p.inst with
-      | none => pure s1
-      | some x =>
-        match p.purpose, r with
-        | .create, .ok rev _ | .takeover, .ok rev _ =>
-          if p.applied ≠ some (some rev) then reject s!"op {op} acknowledged at {rev} but applied {repr p.applied}"
-          else match valTok p.val with
-            | some tok => pure (s1.setInst { x with acked := (tok, rev) :: x.acked })
-            | none => pure s1
-        | .create, .err _ =>
-          (match valTok p.val with
-           | some tok => pure (s1.setInst { x with refusedToks := tok :: x.refusedToks })
-           | none => pure s1)
-        | .heartbeat, .ok rev _ =>
-          if p.applied ≠ some (some rev) then reject s!"op {op} acknowledged at {rev} but applied {repr p.applied}"
-          else if x.lead = valTok p.val ∧ t ≤ p.issued + hbTimeout x.cfg then pure (s1.setInst { x with hbRev := rev })
-          else pure s1          -- the term has ended or the attempt had already timed out: the answer is discarded
-        | .other, .ok rev (some v) => pure (s1.setInst { x with seen := (rev, v) :: x.seen })
-        | _, _ => pure s1
-  | .expire key rev =>
-    match s.live key with
-    | some old => if old.rev = rev then
-        pure { (s.setKey key none) with hist := { who := 0, kind := .expire, key := key, exp := 0, before := some old, after := none } :: s.hist }
-      else reject s!"expiry of {key} at revision {rev}, live revision is {old.rev}"
-    | none => reject s!"expiry of absent key {key}"
-  | .extPut key rev val =>
-    if rev ≠ s.seq + 1 then reject s!"store revision {rev}, model expects {s.seq + 1}" else
-    let old := s.live key
-    let r : Rec := { val := val, rev := rev, writer := 0 }
-    let s := s.setKey key (some r)
-    pure { s with seq := rev, hist := { who := 0, kind := .ext, key := key, exp := 0, before := old, after := some r } :: s.hist,
-                  usedToks := valToks val ++ s.usedToks }
-  | .extDelete key rev =>
-    if rev ≠ s.seq + 1 then reject s!"store revision {rev}, model expects {s.seq + 1}" else
-    let old := s.live key
-    let s := s.setKey key none
-    pure { s with seq := rev, hist := { who := 0, kind := .ext, key := key, exp := 0, before := old, after := none } :: s.hist }
-  | .flag i _ il tok _ =>
-    match s.inst? i with
-    | none => pure s
-    | some x =>
-      if il then
-        if x.lead = some tok then pure s                     -- gauge re-asserted
-        else match x.acked.find? (·.1 = tok) with
-          | some (_, rev) =>
-            if x.lead.isSome then reject s!"instance {i} starts a term (token {tok}) while term {repr x.lead} is open"
-            else pure (s.setInst { x with lead := some tok, hbRev := rev, acked := x.acked.filter (·.1 ≠ tok) })
-          | none => reject s!"instance {i} raises the flag with token {tok} without an acknowledged acquiring write"
-      else pure (s.setInst { x with lead := none })
+  | .inst c =>
+    if (s.insts c.id).isSome then reject s!"instance {c.id} declared twice"
+    else pure { s with insts := fun i => if i = c.id then some { cfg := c } else s.insts i }
+  | .call op i kind key exp val => stepCall s te.t op i kind key exp val
+  | .apply op a => stepApply s op a
+  | .ret op r => stepRet s te.t op r
+  | .expire key rev => stepExpire s key rev
+  | .extPut key rev val => stepExtPut s key rev val
+  | .extDelete key rev => stepExtDelete s key rev
+  | .flag i _ il tok _ => stepFlag s i il tok
   | .api n i (.stopctx del _ _ _) =>
-    match s.inst? i with
+    match s.insts i with
     | some x => pure (s.setInst { x with stopDel := if del then some n else x.stopDel })
     | none => pure s
   | .apiRet n i _ =>
     -- a returning StopWithContext ends its deletion window
-    match s.inst? i with
+    match s.insts i with
     | some x => pure (if x.stopDel = some n then s.setInst { x with stopDel := none } else s)
     | none => pure s
   | _ => pure s
